@@ -184,7 +184,7 @@ struct ConcScenario : Scenario {
     const char* name() const override { return "conc"; }
     Plan generate(uint64_t seed, const std::map<std::string, int64_t>&) override {
         Rng r(seed); Plan p; p.scenario = name();
-        int tasks = r.range(2, 6); p.cfg["tasks"] = tasks; p.cfg["pswitch"] = r.chance(1, 5) ? 62 : r.range(2, 12);   // 62 = coarse schedule: preemption only at the random/hash callbacks p.cfg["sched_seed"] = (int64_t) (r.next() >> 1); p.cfg["setup_seed"] = (int64_t) (r.next() >> 1);
+        int tasks = r.range(2, 6); p.cfg["tasks"] = tasks; p.cfg["pswitch"] = r.chance(1, 5) ? 62 : r.range(2, 18);   // 62 = coarse schedule: preemption only at the random/hash callbacks p.cfg["sched_seed"] = (int64_t) (r.next() >> 1); p.cfg["setup_seed"] = (int64_t) (r.next() >> 1);
         for (int t = 0; t < tasks; t++) { int n = r.range(2, 6); for (int i = 0; i < n; i++) p.ops.push_back({"T", {(int64_t) r.below(ConcRun::NKINDS), (int64_t) r.below(1000), (int64_t) r.below(1000), t}, {}}); }
         return p;
     }
